@@ -41,7 +41,9 @@ import (
 	cutils "github.com/ontio/ontology/core/utils"
 	ontErrors "github.com/ontio/ontology/errors"
 	"github.com/ontio/ontology/smartcontract/service/native/ont"
+	"github.com/ontio/ontology/smartcontract/service/native/global_params"
 	nutils "github.com/ontio/ontology/smartcontract/service/native/utils"
+	oneovm "github.com/ontio/ontology/smartcontract/service/neovm"
 	"github.com/ontio/ontology/vm/neovm"
 )
 
@@ -58,8 +60,17 @@ type rpTxDesc struct {
 type rpIn struct {
 	Variants []string     `json:"variants"`
 	Blocks   [][]rpTxDesc `json:"blocks"` // independent single blocks, executed (not committed) on the bootstrapped state
-	Chains   [][][]rpTxDesc `json:"chains"` // sequences of blocks, committed one after the other on a fresh copy
+	Chains   [][]rpItem   `json:"chains"` // sequences of blocks (and restart markers), committed one after the other on a fresh copy
 	AFile    string       `json:"afile"`  // role B: output of role A
+	Name     string       `json:"name"`   // role B: replica name (its ledgers live under <tmp>/<name> across its processes)
+	Phase    int          `json:"phase"`  // role B: which segment of every chain this process runs (segments end at restart markers)
+	Honor    bool         `json:"honor"`  // role B: does this replica restart (exit, new process) at the restart markers
+}
+
+// rpItem: one step of a chain: a block (Txs) or a restart marker of the restarting replica
+type rpItem struct {
+	Txs     []rpTxDesc `json:"txs"`
+	Restart bool       `json:"restart"`
 }
 
 // ------------------------------------------------------------------------------------------------ ledger
@@ -327,6 +338,7 @@ type rpA struct {
 	ethKey  *ecdsa.PrivateKey
 	sink    common.Address
 	nonce   uint32
+	paramCount int
 }
 
 func (a *rpA) buildTx(d rpTxDesc, evmNonce *uint64) (*types.Transaction, string) {
@@ -377,6 +389,27 @@ func (a *rpA) buildBlock(ls *ledgerstore.LedgerStoreImp, descs []rpTxDesc) (*typ
 	var txs []*types.Transaction
 	var verdicts []string
 	for _, d := range descs {
+		if d.Kind == "setparam" {
+			// governance raises the price of a native call through the real global_params contract: setGlobalParam +
+			// createSnapshot, signed by the administrator (the bookkeeper); effective from the next block's refresh
+			a.paramCount++
+			for k, mt := range []*types.MutableTransaction{
+				rpNativeTx(nutils.ParamContractAddress, global_params.SET_GLOBAL_PARAM_NAME,
+					[]interface{}{global_params.Params{{Key: oneovm.NATIVE_INVOKE_NAME, Value: fmt.Sprint(100000 * a.paramCount)}}}, 0, 0),
+				rpNativeTx(nutils.ParamContractAddress, global_params.CREATE_SNAPSHOT_NAME, []interface{}{""}, 0, 0)} {
+				a.nonce++
+				mt.Nonce = a.nonce + uint32(k)
+				tx := rpSimpleSigned(mt, a.keeper)
+				code := VerifyTransaction(tx)
+				verdicts = append(verdicts, code.Error())
+				if code != ontErrors.ErrNoError {
+					return nil, verdicts, "VerifyTransaction: " + code.Error()
+				}
+				txs = append(txs, tx)
+			}
+			a.nonce++
+			continue
+		}
 		tx, e := a.buildTx(d, &en)
 		if tx == nil {
 			return nil, nil, "build: " + e
@@ -494,7 +527,12 @@ func TestVerifReplicaA(t *testing.T) {
 		cls, err := ledgerstore.NewLedgerStore(cdir, 0)
 		vhMust(err)
 		vhMust(cls.InitLedgerStoreWithGenesisBlock(a.gb, []keypair.PublicKey{a.keeper.PublicKey}))
-		for bi, descs := range chain {
+		a.paramCount = 0
+		for bi, item := range chain {
+			if item.Restart {
+				continue // node A never restarts
+			}
+			descs := item.Txs
 			blk, verdicts, e := a.buildBlock(cls, descs)
 			if blk == nil {
 				out.Emit(map[string]interface{}{"event": "ChainBlock", "c": ci, "b": bi, "skip": e, "verdicts": verdicts})
@@ -519,12 +557,28 @@ func TestVerifReplicaA(t *testing.T) {
 
 // ------------------------------------------------------------------------------------------------ role B
 
+// segOf: the segment (number of restart markers before it) of item bi of a chain, for a replica that honours them
+func segOf(chain []rpItem, bi int, honor bool) int {
+	if !honor {
+		return 0
+	}
+	n := 0
+	for i := 0; i < bi; i++ {
+		if chain[i].Restart {
+			n++
+		}
+	}
+	return n
+}
+
 func TestVerifReplicaB(t *testing.T) {
 	var in rpIn
 	vhIn(&in)
 	out := vhOpenOut()
 	defer out.Close()
-	defer os.RemoveAll(rpBase())
+	// the ledgers of this replica survive its processes: <tmp>/<name>/...  (removed by the python side)
+	base := filepath.Join(os.Getenv("VERIF_LEDGER_TMP"), "replica-"+in.Name)
+	vhMust(os.MkdirAll(base, 0o755))
 	f, err := os.Open(in.AFile)
 	vhMust(err)
 	defer f.Close()
@@ -536,7 +590,12 @@ func TestVerifReplicaB(t *testing.T) {
 	bk, err := keypair.DeserializePublicKey(kb)
 	vhMust(err)
 	gb := rpSetConfig(bk)
-	ls, dir := rpOpen(gb, bk)
+	open := func(dir string) *ledgerstore.LedgerStoreImp {
+		ls, err := ledgerstore.NewLedgerStore(dir, 0)
+		vhMust(err)
+		vhMust(ls.InitLedgerStoreWithGenesisBlock(gb, []keypair.PublicKey{bk}))
+		return ls
+	}
 	decode := func(h string) *types.Block {
 		raw, err := hex.DecodeString(h)
 		vhMust(err)
@@ -544,14 +603,19 @@ func TestVerifReplicaB(t *testing.T) {
 		vhMust(err)
 		return blk
 	}
-	bb := decode(hdr["boot"].(string))
-	root, _ := common.Uint256FromHexString(hdr["bootRoot"].(string))
-	if err := ls.AddBlock(bb, nil, root); err != nil {
-		out.Emit(map[string]interface{}{"event": "Header", "err": err.Error()})
-		return
+	baseDir := filepath.Join(base, "base")
+	var ls *ledgerstore.LedgerStoreImp
+	if in.Phase == 0 {
+		ls = open(baseDir)
+		bb := decode(hdr["boot"].(string))
+		root, _ := common.Uint256FromHexString(hdr["bootRoot"].(string))
+		if err := ls.AddBlock(bb, nil, root); err != nil {
+			out.Emit(map[string]interface{}{"event": "Header", "err": err.Error()})
+			return
+		}
 	}
-	out.Emit(map[string]interface{}{"event": "Header"})
-	closed := false
+	out.Emit(map[string]interface{}{"event": "Header", "phase": in.Phase})
+	closed := ls == nil
 	chains := map[int]*ledgerstore.LedgerStoreImp{}
 	dead := map[int]bool{}
 	for dec.More() {
@@ -560,6 +624,9 @@ func TestVerifReplicaB(t *testing.T) {
 		bytesHex, has := rec["bytes"].(string)
 		switch rec["event"] {
 		case "Block":
+			if in.Phase != 0 {
+				continue
+			}
 			o := map[string]interface{}{"event": "Block", "i": rec["i"]}
 			if !has {
 				o["skip"] = rec["skip"]
@@ -579,8 +646,11 @@ func TestVerifReplicaB(t *testing.T) {
 				vhMust(ls.Close())
 				closed = true
 			}
-			ci := int(rec["c"].(float64))
-			o := map[string]interface{}{"event": "ChainBlock", "c": ci, "b": rec["b"]}
+			ci, bi := int(rec["c"].(float64)), int(rec["b"].(float64))
+			if segOf(in.Chains[ci], bi, in.Honor) != in.Phase {
+				continue // another process of this replica runs that part of the chain
+			}
+			o := map[string]interface{}{"event": "ChainBlock", "c": ci, "b": bi, "phase": in.Phase}
 			if !has || dead[ci] {
 				o["skip"] = true
 				out.Emit(o)
@@ -588,11 +658,11 @@ func TestVerifReplicaB(t *testing.T) {
 			}
 			cls := chains[ci]
 			if cls == nil {
-				cdir := filepath.Join(rpBase(), fmt.Sprintf("chain%d", ci))
-				rpCopyDir(dir, cdir)
-				cls, err = ledgerstore.NewLedgerStore(cdir, 0)
-				vhMust(err)
-				vhMust(cls.InitLedgerStoreWithGenesisBlock(gb, []keypair.PublicKey{bk}))
+				cdir := filepath.Join(base, fmt.Sprintf("chain%d", ci))
+				if _, err := os.Stat(cdir); err != nil {
+					rpCopyDir(baseDir, cdir) // first block of the chain: a copy of the bootstrapped ledger
+				}
+				cls = open(cdir) // later segments: the data directory an earlier process of this replica left
 				chains[ci] = cls
 			}
 			blk := decode(bytesHex)
@@ -605,7 +675,10 @@ func TestVerifReplicaB(t *testing.T) {
 			}
 			o["digest"] = rpDigest(res, blk.Transactions)
 			// the syncing node commits with the state root the proposer announced
-			aroot, _ := common.Uint256FromHexString(rec["digest"].(map[string]interface{})["root"].(string))
+			var aroot common.Uint256
+			if dg, ok := rec["digest"].(map[string]interface{}); ok {
+				aroot, _ = common.Uint256FromHexString(dg["root"].(string))
+			}
 			if err := cls.AddBlock(blk, nil, aroot); err != nil {
 				o["addErr"] = err.Error()
 				dead[ci] = true
